@@ -4,11 +4,13 @@ SPECIFICATION Spec
 CONSTANTS
   Rcpts = {"ra", "rb"}
   NTs = {1, 2}
+  Lmtps = {TRUE, FALSE}
+  Holds = {TRUE, FALSE}
   Fails = {"perm"}
   MaxFaults = 1
   MaxCmds = 5
   Allowed = {"*"}
-  Devs = {"DataFailNoAbort", "CommitStopsAtFirst", "LmtpStatusKey", "EhloNoLogout", "MailRawSender", "NestedMail", "LmtpCommitErrLost"}
+  Devs = {"DataFailNoAbort", "CommitStopsAtFirst", "LmtpStatusKey", "EhloNoLogout", "MailRawSender", "NestedMail", "LmtpCommitErrLost", "LmtpCommitAfterReject"}
   Gen = TRUE
 VIEW GenView
 CHECK_DEADLOCK FALSE
